@@ -20,8 +20,8 @@ import (
 // In is one input value: a type tree and a value tree (trees are canonical: they were read
 // back from the real type / bytes after building, see canonIn).
 type In struct {
-	T *T `json:"t"`
-	V *V `json:"v"`
+	T *T  `json:"t"`
+	V *V  `json:"v"`
 	N int `json:"nbytes"` // len(val.Bytes()) of the real value
 }
 
@@ -113,7 +113,7 @@ func runQuery(q string, ins []In) (res realRes) {
 		if err != nil {
 			return err
 		}
-		ctx, cancel := context.WithTimeout(context.Background(), 60*time.Second)
+		ctx, cancel := context.WithTimeout(context.Background(), 300*time.Second)
 		defer cancel()
 		query, err := runtime.CompileQuery(ctx, zctx, compiler.NewCompiler(), ast, sset, []zio.Reader{&sliceReader{vals: vals}})
 		if err != nil {
@@ -165,7 +165,7 @@ func runAgg(ins []In) (t *T, errs string) {
 		if err != nil {
 			return err
 		}
-		ctx, cancel := context.WithTimeout(context.Background(), 60*time.Second)
+		ctx, cancel := context.WithTimeout(context.Background(), 300*time.Second)
 		defer cancel()
 		query, err := runtime.CompileQuery(ctx, zctx, compiler.NewCompiler(), ast, sset, []zio.Reader{&sliceReader{vals: vals}})
 		if err != nil {
